@@ -340,3 +340,52 @@ pub fn findfree_op(a: &[&str]) -> Option<String> {
     let oracle = if notes.is_empty() { j(&want) } else { notes.join("/") };
     Some(tail(j(&got), oracle, allocs))
 }
+
+/// `ppforeign <isa> <short needle> <long needle> <i1> <i2>`: `Pair::with_indices(long, i1, i2)`
+/// handed to `<isa>::packedpair::Finder::with_pair(short, pair)` (`isa` = `fallback|sse2|avx2|
+/// neon|simd128`), the short needle ending exactly at a guard page.  The safe constructor must
+/// either build a finder (both offsets inside the short needle) or panic; it must never read
+/// past the needle (a read past it faults here).
+pub fn ppforeign_op(a: &[&str]) -> Option<String> {
+    if a.len() != 5 {
+        return None;
+    }
+    use memchr::arch::all::packedpair::Pair;
+    let short = parse_bytes(a[1])?;
+    let long = parse_bytes(a[2])?;
+    let i1: u8 = a[3].parse().ok()?;
+    let i2: u8 = a[4].parse().ok()?;
+    let ps = Placed::new(&short, (4096 - short.len() % 4096) % 4096);
+    crate::vreset();
+    let pair = match Pair::with_indices(&long, i1, i2) {
+        None => return Some("ok badpair steps=0 loads=- oracle=badpair".to_string()),
+        Some(p) => p,
+    };
+    // the finder is USED (a probe search), so that the bytes it read from the needle are live
+    let probe = [0x2Eu8; 600];
+    let r: std::thread::Result<Option<bool>> = std::panic::catch_unwind(std::panic::AssertUnwindSafe(|| match a[0] {
+        "fallback" => Some(memchr::arch::all::packedpair::Finder::with_pair(ps.slice(), pair).map(|f| f.find_prefilter(&probe)).is_some()),
+        #[cfg(not(any(memchr_verif_emu_neon, memchr_verif_emu_simd128, memchr_verif_emu_other)))]
+        "sse2" => Some(memchr::arch::x86_64::sse2::packedpair::Finder::with_pair(ps.slice(), pair).map(|f| f.find_prefilter(&probe)).is_some()),
+        #[cfg(not(any(memchr_verif_emu_neon, memchr_verif_emu_simd128, memchr_verif_emu_other)))]
+        "avx2" => Some(memchr::arch::x86_64::avx2::packedpair::Finder::with_pair(ps.slice(), pair).map(|f| f.find_prefilter(&probe)).is_some()),
+        #[cfg(memchr_verif_emu_neon)]
+        "neon" => Some(memchr::arch::aarch64::neon::packedpair::Finder::with_pair(ps.slice(), pair).map(|f| f.find_prefilter(&probe)).is_some()),
+        #[cfg(memchr_verif_emu_simd128)]
+        "simd128" => Some(memchr::arch::wasm32::simd128::packedpair::Finder::with_pair(ps.slice(), pair).map(|f| f.find_prefilter(&probe)).is_some()),
+        _ => None,
+    }));
+    let _ = verif::take();
+    let inside = (i1 as usize) < short.len() && (i2 as usize) < short.len();
+    match r {
+        Err(e) => {
+            let msg = crate::util::panic_message(&*e);
+            Some(format!("{} [{}]", crate::util::classify_panic(&msg), msg.replace('\n', " ")))
+        }
+        Ok(None) => None,
+        Ok(Some(built)) => {
+            let val = if built { "built" } else { "nofinder" };
+            Some(format!("ok {} steps=0 loads=- oracle={}", val, if inside { "built" } else { "MUST-PANIC" }))
+        }
+    }
+}
